@@ -17,7 +17,7 @@ func init() {
 		Technique: "who-may-write / who-may-call census (queuedControlFrames, writeScheduler.add/take, writeQueue mutators), guard analysis and path queries on go/ssa of writeFrame, scheduleFrameWrite and the serve loop",
 		Meta: core.Meta{
 			Level:       "other",
-			Explanation: "Decides the accounting clauses behind the control-frame bound in bfe_http2: (1) serverConn.queuedControlFrames is written only as +1 in writeFrame under isControl(wm) and as -1 in scheduleFrameWrite under isControl(frame returned by writeSched.take) with take's ok result true; (2) writeScheduler.add is called only from writeFrame with the counted message, every path on which isControl is true passes the increment, and writeQueue.push is called only from add; (3) writeScheduler.take is called only from scheduleFrameWrite, the taken frame cannot reach startFrameWrite without passing the isControl test, and on its true branch the decrement precedes every exit; (4) isControl is exactly `stream == nil` and add files a message in the zero (control) queue exactly under the same condition, zero is shifted only by take and writeQueue.s is stored only by push/shift/forgetStream (so the counter equals the length of the control queue); (5) the PING-ack, SETTINGS and RST_STREAM(resetStream) writers pass no stream, i.e. are counted; (6) in serve every cycle through the select passes the comparison queuedControlFrames > / >= srv.maxQueuedControlFrames(), whose exceeded branch cannot return to the select and reaches return, with `defer sc.conn.Close()` registered before the loop; (7) maxQueuedControlFrames returns a positive constant (or a value tested > 0). Not covered: that memory is actually bounded (frame sizes), frames dropped by forgetStream, stream-bound frames (bounded by flow control and the stream limit, C33/C35), the timing of the check relative to bursts generated within one loop iteration.",
+			Explanation: "Decides the accounting clauses behind the control-frame bound in bfe_http2: (1) serverConn.queuedControlFrames is written only as +1 in writeFrame under isControl(wm) and as -1 in scheduleFrameWrite under isControl(frame returned by writeSched.take) with take's ok result true; the only other store accepted in these two functions is the constant 0 written where the counter was found negative (it can only raise the counter, so it never under-counts queued frames); (2) writeScheduler.add is called only from writeFrame with the counted message, every path on which isControl is true passes the increment, and writeQueue.push is called only from add; (3) writeScheduler.take is called only from scheduleFrameWrite, the taken frame cannot reach startFrameWrite without passing the isControl test, and on its true branch the decrement precedes every exit; (4) isControl is exactly `stream == nil` and add files a message in the zero (control) queue exactly under the same condition, zero is shifted only by take and writeQueue.s is stored only by push/shift/forgetStream (so the counter equals the length of the control queue); (5) the PING-ack, SETTINGS and RST_STREAM(resetStream) writers pass no stream, i.e. are counted; (6) in serve every cycle through the select passes the comparison queuedControlFrames > / >= srv.maxQueuedControlFrames(), whose exceeded branch cannot return to the select and reaches return, with `defer sc.conn.Close()` registered before the loop; (7) maxQueuedControlFrames returns a positive constant (or a value tested > 0). Robustness: every anchor function is analysed together with its private helpers (unexported functions of bfe_http2 that are never used as values and whose every call site lies in the anchor or another such helper, depth <= 4): stores, calls and loops found there count as the anchor's; values are followed across the call boundary (a helper's parameter is the argument at its single call site, the result of a helper call is the one value the helper returns); guards hold inside a single-call-site helper when they hold at its call site; branch facts are read through negations, mirrored comparisons, named booleans, short-circuit phis (the fact must follow on every edge that can yield the value, edges contradicting other known guards excluded) and boolean helper functions (the fact must follow at every return that can yield the value); dominance, must-pass and reachability are decided on the call-stack-sensitive supergraph of the region (calls of helpers entered, constant boolean results matched with the branch on them in the caller). Not followed: helpers that are used as function values or invoked through an interface, helpers called through defer or go, values passed through struct fields or closures' free variables into a helper, helpers with more than one call site for parameter identity (their code is still attributed to the anchor when all call sites lie in the region). Not covered: that memory is actually bounded (frame sizes), frames dropped by forgetStream, stream-bound frames (bounded by flow control and the stream limit, C33/C35), the timing of the check relative to bursts generated within one loop iteration.",
 			RuleText:    "obligations = each writer of queuedControlFrames, each add/take/push/zero-shift call site, the isControl definition and the zero-queue condition, each control-frame literal passed to writeFrame, the clauses of the serve-loop limit test, each return of maxQueuedControlFrames",
 		},
 		Run: runC37,
@@ -35,6 +35,9 @@ func init() {
 			{Name: "decrement-twice", File: "bfe_http2/server.go", Old: "	if sc.needToSendSettingsAck {\n		sc.needToSendSettingsAck = false\n", New: "	if sc.needToSendSettingsAck {\n		sc.needToSendSettingsAck = false\n		sc.queuedControlFrames--\n", Expect: "qcf-writers"},
 			{Name: "silent-count-after-add", File: "bfe_http2/server.go", Old: "	if wm.isControl() {\n		sc.queuedControlFrames++\n	}\n\n	sc.writeSched.add(wm)", New: "	sc.writeSched.add(wm)\n	if wm.isControl() {\n		sc.queuedControlFrames++\n	}\n", Silent: true},
 			{Name: "silent-limit-local", File: "bfe_http2/server.go", Old: "		if sc.queuedControlFrames > sc.srv.maxQueuedControlFrames() {", New: "		limit := sc.srv.maxQueuedControlFrames()\n		if queued := sc.queuedControlFrames; queued > limit {", Silent: true},
+			{Name: "silent-limit-test-in-boolean-helper", File: "bfe_http2/server.go", Old: "\t\tif sc.queuedControlFrames > sc.srv.maxQueuedControlFrames() {\n\t\t\tstate.H2ConnExceedMaxQueuedControlFrames.Inc(1)\n\t\t\tlog.Logger.Debug(\"http2: too many control frames in send queue, closing connection\")\n\t\t\treturn\n\t\t}\n\t}\n}\n", New: "\t\tif sc.controlQueueFull() {\n\t\t\treturn\n\t\t}\n\t}\n}\n\nfunc (sc *serverConn) controlQueueFull() bool {\n\tif sc.queuedControlFrames > sc.srv.maxQueuedControlFrames() {\n\t\tstate.H2ConnExceedMaxQueuedControlFrames.Inc(1)\n\t\tlog.Logger.Debug(\"http2: too many control frames in send queue, closing connection\")\n\t\treturn true\n\t}\n\treturn false\n}\n", Silent: true},
+			{Name: "silent-limit-test-inverted-continue", File: "bfe_http2/server.go", Old: "\t\tif sc.queuedControlFrames > sc.srv.maxQueuedControlFrames() {\n\t\t\tstate.H2ConnExceedMaxQueuedControlFrames.Inc(1)\n\t\t\tlog.Logger.Debug(\"http2: too many control frames in send queue, closing connection\")\n\t\t\treturn\n\t\t}\n\t}\n}\n", New: "\t\tif sc.queuedControlFrames <= sc.srv.maxQueuedControlFrames() {\n\t\t\tcontinue\n\t\t}\n\t\tstate.H2ConnExceedMaxQueuedControlFrames.Inc(1)\n\t\tlog.Logger.Debug(\"http2: too many control frames in send queue, closing connection\")\n\t\treturn\n\t}\n}\n", Silent: true},
+			{Name: "silent-negative-count-repaired-and-logged", File: "bfe_http2/server.go", Old: "\t\tif wm, ok := sc.writeSched.take(); ok {\n\t\t\tif wm.isControl() {\n\t\t\t\tsc.queuedControlFrames--\n\t\t\t}\n\t\t\tsc.startFrameWrite(wm)\n\t\t\treturn\n\t\t}\n", New: "\t\tif next, found := sc.writeSched.take(); found {\n\t\t\tcounts := next.isControl()\n\t\t\tif counts {\n\t\t\t\tsc.queuedControlFrames -= 1\n\t\t\t\tif sc.queuedControlFrames < 0 {\n\t\t\t\t\tlog.Logger.Debug(\"http2: queuedControlFrames=%d after take\", sc.queuedControlFrames)\n\t\t\t\t\tsc.queuedControlFrames = 0\n\t\t\t\t}\n\t\t\t}\n\t\t\tsc.startFrameWrite(next)\n\t\t\treturn\n\t\t}\n", Silent: true},
 		},
 	})
 }
@@ -44,6 +47,7 @@ func runC37(c *core.Ctx) {
 	if e == nil {
 		return
 	}
+	e.declare("writeQueue.push", "writeQueue.shift", "writeScheduler.forgetStream", "serverConn.startFrameWrite")
 	qcf := e.field("serverConn.queuedControlFrames")
 	streamF := e.field("frameWriteMsg.stream")
 	zeroF := e.field("writeScheduler.zero")
@@ -62,7 +66,10 @@ func runC37(c *core.Ctx) {
 		c.Missing("serverConn.writeFrame(wm frameWriteMsg): signature changed")
 		return
 	}
-	isQcfLoad := func(v ssa.Value) bool { _, ok := h2bFieldLoad(v, qcf); return ok }
+	// every anchor is looked at together with its private helpers
+	wfReg, scReg, svReg, addReg, takeReg := e.region(writeFrame), e.region(sched), e.region(serve), e.region(add), e.region(take)
+	msg := ssa.Value(writeFrame.Params[1])
+	isQcfLoad := func(v ssa.Value) bool { _, ok := h2bFieldLoad(e.rep(v), qcf); return ok }
 	isControlOf := func(v ssa.Value, arg func(ssa.Value) bool) bool {
 		call, ok := h2bIsCall(v, "frameWriteMsg.isControl")
 		return ok && len(call.Call.Args) == 1 && arg(call.Call.Args[0])
@@ -85,26 +92,36 @@ func runC37(c *core.Ctx) {
 		}
 		return 0
 	}
+	// repair: a store that cannot lower the counter below the number of queued
+	// control frames: the constant 0 stored only where the counter was found
+	// negative (a count is never negative, so this never under-counts).
+	repair := func(st *ssa.Store) bool {
+		k, isK := h2bInt(st.Val)
+		return isK && k == 0 && e.guarded(st.Block(), func(r h2bRel) bool {
+			return r.Cmp(token.LSS, isQcfLoad, h2bIsInt(0)) || r.Cmp(token.LEQ, isQcfLoad, h2bIsInt(-1))
+		})
+	}
 
 	// (1) writers of the counter
 	var incs, decs []*ssa.Store
+	nRepair := 0
 	for _, s := range core.FieldStores(e.fns, qcf) {
 		d := delta(s.Store)
 		switch {
-		case s.Fn == writeFrame && d == 1:
+		case wfReg.in[s.Fn] && d == 1:
 			incs = append(incs, s.Store)
-			ok := len(writeFrame.Params) == 2 && h2bGuarded(s.Store.Block(), func(r h2bRel) bool {
-				return r.Flag(true, func(v ssa.Value) bool { return isControlOf(v, h2bIs(writeFrame.Params[1])) })
+			ok := e.guarded(s.Store.Block(), func(r h2bRel) bool {
+				return r.Flag(true, func(v ssa.Value) bool { return isControlOf(v, e.is(msg)) })
 			})
 			c.Check("qcf-writers", "serverConn.writeFrame:inc", s.Store.Pos(), ok,
-				"queuedControlFrames++ is not control-dependent on isControl() of the message being queued; guards: "+h2bGuardList(s.Store.Block()))
-		case s.Fn == sched && d == -1:
+				"queuedControlFrames++ is not control-dependent on isControl() of the message being queued; guards: "+e.guardList(s.Store.Block()))
+		case scReg.in[s.Fn] && d == -1:
 			decs = append(decs, s.Store)
 			var tk *ssa.Call
-			okC := h2bGuarded(s.Store.Block(), func(r h2bRel) bool {
+			okC := e.guarded(s.Store.Block(), func(r h2bRel) bool {
 				return r.Flag(true, func(v ssa.Value) bool {
 					return isControlOf(v, func(a ssa.Value) bool {
-						ex, ok := h2bCanon(a).(*ssa.Extract)
+						ex, ok := e.rep(a).(*ssa.Extract)
 						if !ok || ex.Index != 0 {
 							return false
 						}
@@ -116,63 +133,72 @@ func runC37(c *core.Ctx) {
 					})
 				})
 			})
-			okT := tk != nil && h2bGuarded(s.Store.Block(), func(r h2bRel) bool {
+			okT := tk != nil && e.guarded(s.Store.Block(), func(r h2bRel) bool {
 				return r.Flag(true, func(v ssa.Value) bool {
-					ex, ok := v.(*ssa.Extract)
+					ex, ok := e.rep(v).(*ssa.Extract)
 					return ok && ex.Index == 1 && ex.Tuple == ssa.Value(tk)
 				})
 			})
 			c.Check("qcf-writers", "serverConn.scheduleFrameWrite:dec", s.Store.Pos(), okC && okT,
-				"queuedControlFrames-- must happen only where a control frame leaves the scheduler: under ok && isControl() of the frame returned by writeSched.take(); guards: "+h2bGuardList(s.Store.Block()))
+				"queuedControlFrames-- must happen only where a control frame leaves the scheduler: under ok && isControl() of the frame returned by writeSched.take(); guards: "+e.guardList(s.Store.Block()))
+		case (wfReg.in[s.Fn] || scReg.in[s.Fn]) && repair(s.Store):
+			nRepair++
+			c.Check("qcf-writers", fmt.Sprintf("%s:repair-negative#%d", h2bShort(e.home(s.Fn, writeFrame, sched)), nRepair), s.Store.Pos(), true, "")
 		default:
 			c.Check("qcf-writers", h2bShort(s.Fn)+":other", s.Store.Pos(), false,
 				"queuedControlFrames is written as "+core.Render(s.Store.Val)+" in "+h2bShort(s.Fn)+"; only ++ in writeFrame and -- in scheduleFrameWrite keep it equal to the number of queued control frames")
 		}
 	}
 	c.Min("qcf-writers", 2)
+	isInc := func(x ssa.Instruction) bool {
+		for _, st := range incs {
+			if x == ssa.Instruction(st) {
+				return true
+			}
+		}
+		return false
+	}
+	isDec := func(x ssa.Instruction) bool {
+		for _, st := range decs {
+			if x == ssa.Instruction(st) {
+				return true
+			}
+		}
+		return false
+	}
 
 	// (2) add: only from writeFrame, counted
 	for _, s := range e.callSites("writeScheduler.add") {
-		k := h2bShort(s.Fn)
-		if s.Fn != writeFrame {
+		if !wfReg.in[s.Fn] {
+			k := h2bShort(s.Fn)
 			c.Check("sched-add", k+":caller", s.Call.Pos(), false, "writeScheduler.add is called from "+k+": frames queued there bypass the control-frame count of writeFrame")
 			continue
 		}
+		k := h2bShort(writeFrame)
 		args := s.Call.Common().Args
-		c.Check("sched-add", k+":message", s.Call.Pos(), len(args) == 2 && h2bEq(args[1], writeFrame.Params[1]), "writeFrame queues "+core.Render(args[len(args)-1])+", not the message it counted")
-		var test *ssa.If
-		for _, ifi := range h2bIfs(writeFrame) {
-			if isControlOf(ifi.Cond, h2bIs(writeFrame.Params[1])) {
-				test = ifi
-			}
-		}
+		c.Check("sched-add", k+":message", s.Call.Pos(), len(args) == 2 && e.eq(args[1], msg), "writeFrame queues "+core.Render(args[len(args)-1])+", not the message it counted")
+		test, counted := e.branchOn(wfReg.ifs(), func(r h2bRel) bool {
+			return r.Flag(true, func(v ssa.Value) bool { return isControlOf(v, e.is(msg)) })
+		}, nil)
 		if test == nil {
 			c.Check("sched-add", k+":counted", s.Call.Pos(), false, "writeFrame queues a frame without testing isControl() of it: control frames are not counted")
 			continue
 		}
 		in := s.Call.(ssa.Instruction)
-		both := core.Dominates(test, in) || core.MustPass(writeFrame, in, h2bInstrIs(test)) == nil
-		isInc := func(x ssa.Instruction) bool {
-			for _, st := range incs {
-				if x == ssa.Instruction(st) {
-					return true
-				}
-			}
-			return false
-		}
-		bad := h2bReachFromBlock(test.Block().Succs[0], isInc, core.IsReturn)
+		both := wfReg.dominates(test, in) || wfReg.mustPass(in, h2bInstrIs(test)) == nil
+		bad := wfReg.reachFromBlock(counted, isInc, wfReg.isExit)
 		c.Check("sched-add", k+":counted", s.Call.Pos(), both && bad == nil,
 			"a control frame can be queued by writeFrame without queuedControlFrames being incremented on that path")
 	}
 	for i, s := range e.callSites("writeQueue.push") {
-		c.Check("sched-add", fmt.Sprintf("%s:push#%d", h2bShort(s.Fn), i+1), s.Call.Pos(), s.Fn == add, "writeQueue.push is called from "+h2bShort(s.Fn)+": a frame enters a queue without passing writeScheduler.add")
+		c.Check("sched-add", fmt.Sprintf("%s:push#%d", h2bShort(e.home(s.Fn, add)), i+1), s.Call.Pos(), addReg.in[s.Fn], "writeQueue.push is called from "+h2bShort(s.Fn)+": a frame enters a queue without passing writeScheduler.add")
 	}
 	c.Min("sched-add", 4)
 
 	// (3) take: only from scheduleFrameWrite, decrement before the frame leaves
 	for i, s := range e.callSites("writeScheduler.take") {
-		k := fmt.Sprintf("%s:take#%d", h2bShort(s.Fn), i+1)
-		if s.Fn != sched {
+		k := fmt.Sprintf("%s:take#%d", h2bShort(e.home(s.Fn, sched)), i+1)
+		if !scReg.in[s.Fn] {
 			c.Check("sched-take", k+":caller", s.Call.Pos(), false, "writeScheduler.take is called from "+h2bShort(s.Fn)+": frames leave the scheduler without the control-frame count being decremented")
 			continue
 		}
@@ -182,15 +208,12 @@ func runC37(c *core.Ctx) {
 			continue
 		}
 		isTaken := func(v ssa.Value) bool {
-			ex, ok := h2bCanon(v).(*ssa.Extract)
+			ex, ok := e.rep(v).(*ssa.Extract)
 			return ok && ex.Index == 0 && ex.Tuple == ssa.Value(call)
 		}
-		var test *ssa.If
-		for _, ifi := range h2bIfs(sched) {
-			if isControlOf(ifi.Cond, isTaken) {
-				test = ifi
-			}
-		}
+		test, control := e.branchOn(scReg.ifs(), func(r h2bRel) bool {
+			return r.Flag(true, func(v ssa.Value) bool { return isControlOf(v, isTaken) })
+		}, nil)
 		if test == nil {
 			c.Check("sched-take", k+":tested", s.Call.Pos(), false, "the frame returned by take() is never tested with isControl(): the count is not decremented when control frames are written")
 			continue
@@ -203,57 +226,71 @@ func runC37(c *core.Ctx) {
 			a := ci.Common().Args
 			return len(a) == 2 && isTaken(a[1])
 		}
-		bad := core.ReachAvoiding(sched, call, h2bInstrIs(test), leaves)
+		bad := scReg.reachAfter(call, h2bInstrIs(test), leaves)
 		c.Check("sched-take", k+":tested", s.Call.Pos(), bad == nil, "the taken frame can reach startFrameWrite without passing the isControl() test")
-		isDec := func(x ssa.Instruction) bool {
-			for _, st := range decs {
-				if x == ssa.Instruction(st) {
-					return true
-				}
-			}
-			return false
-		}
-		bad = h2bReachFromBlock(test.Block().Succs[0], isDec, func(x ssa.Instruction) bool { return core.IsReturn(x) || leaves(x) })
+		bad = scReg.reachFromBlock(control, isDec, func(x ssa.Instruction) bool { return scReg.isExit(x) || leaves(x) })
 		c.Check("sched-take", k+":decremented", h2bPos(test), bad == nil, "a control frame leaves the scheduler (startFrameWrite / return) without queuedControlFrames being decremented")
 	}
 	for _, s := range e.callSites("writeQueue.shift") {
 		recv := s.Call.Common().Args[0]
 		fa, ok := recv.(*ssa.FieldAddr)
 		if ok && core.FieldObj(fa.X, fa.Field) == zeroF {
-			c.Check("sched-take", h2bShort(s.Fn)+":zero-shift", s.Call.Pos(), s.Fn == take, "the control queue (writeScheduler.zero) is shifted in "+h2bShort(s.Fn)+", outside writeScheduler.take")
+			c.Check("sched-take", h2bShort(e.home(s.Fn, take))+":zero-shift", s.Call.Pos(), takeReg.in[s.Fn], "the control queue (writeScheduler.zero) is shifted in "+h2bShort(s.Fn)+", outside writeScheduler.take")
 		}
 	}
 	c.Min("sched-take", 3)
 
 	// (4) isControl == (stream == nil) == membership of the zero queue
 	{
+		isStreamLoad := func(v ssa.Value) bool { _, is := h2bFieldLoad(e.rep(v), streamF); return is }
+		streamNil := func(r h2bRel) bool { return r.Cmp(token.EQL, isStreamLoad, h2bNilV) }
+		streamSet := func(r h2bRel) bool { return r.Cmp(token.NEQ, isStreamLoad, h2bNilV) }
 		rets := core.Returns(isControl)
-		ok := len(rets) == 1 && len(rets[0].Results) == 1
-		if ok {
-			r := h2bRelOfCond(rets[0].Results[0], true)
-			ok = r.Cmp(token.EQL, func(v ssa.Value) bool { _, is := h2bFieldLoad(v, streamF); return is }, h2bNilV)
+		ok := len(rets) > 0
+		for _, r := range rets {
+			if len(r.Results) != 1 {
+				ok = false
+				continue
+			}
+			v := core.RetVals(r)[0]
+			if k, isK := h2bBool(v); isK {
+				m := streamSet
+				if k {
+					m = streamNil
+				}
+				ok = ok && e.guarded(r.Block(), m)
+				continue
+			}
+			ok = ok && h2bImplies(e, v, true, streamNil, 0) && h2bImplies(e, v, false, streamSet, 0)
 		}
 		c.Check("is-control", "frameWriteMsg.isControl", isControl.Pos(), ok,
 			"isControl() is no longer exactly `wr.stream == nil`; frames queued in the control (zero) queue and frames counted by queuedControlFrames may differ")
-		for _, call := range core.Calls(add, h2bName("writeQueue.push")) {
+		for _, call := range addReg.calls("writeQueue.push") {
 			recv := call.Common().Args[0]
 			fa, isZero := recv.(*ssa.FieldAddr)
 			isZero = isZero && core.FieldObj(fa.X, fa.Field) == zeroF
 			b := call.(ssa.Instruction).Block()
-			streamNil := func(op token.Token) bool {
-				return h2bGuarded(b, func(r h2bRel) bool {
-					return r.Cmp(op, func(v ssa.Value) bool { _, is := h2bFieldLoad(v, streamF); return is }, h2bNilV)
-				})
-			}
 			if isZero {
-				c.Check("is-control", "writeScheduler.add:zero-queue", call.Pos(), streamNil(token.EQL), "add files a message in the control queue without stream == nil: it is not counted by isControl(); guards: "+h2bGuardList(b))
+				c.Check("is-control", "writeScheduler.add:zero-queue", call.Pos(), e.guarded(b, streamNil), "add files a message in the control queue without stream == nil: it is not counted by isControl(); guards: "+e.guardList(b))
 			} else {
-				c.Check("is-control", "writeScheduler.add:stream-queue", call.Pos(), streamNil(token.NEQ), "add files a message in a stream queue although its stream may be nil: it is counted but never leaves through the control queue; guards: "+h2bGuardList(b))
+				c.Check("is-control", "writeScheduler.add:stream-queue", call.Pos(), e.guarded(b, streamSet), "add files a message in a stream queue although its stream may be nil: it is counted but never leaves through the control queue; guards: "+e.guardList(b))
+			}
+		}
+		var mutators []*ssa.Function
+		for _, n := range []string{"writeQueue.push", "writeQueue.shift", "writeScheduler.forgetStream"} {
+			if f := c.P.Func(h2bPkg, n); f != nil {
+				mutators = append(mutators, f)
 			}
 		}
 		for _, s := range core.FieldStores(e.fns, sF) {
-			k := h2bShort(s.Fn)
-			ok := k == "writeQueue.push" || k == "writeQueue.shift" || k == "writeScheduler.forgetStream"
+			home := e.home(s.Fn, mutators...)
+			k := h2bShort(home)
+			ok := false
+			for _, m := range mutators {
+				if home == m {
+					ok = true
+				}
+			}
 			c.Check("is-control", k+":queue-store", s.Store.Pos(), ok, "writeQueue.s is stored in "+k+"; only push, shift and forgetStream may change a queue's content")
 		}
 		for _, s := range core.FieldStores(e.fns, zeroF) {
@@ -287,39 +324,41 @@ func runC37(c *core.Ctx) {
 	// (6) the serve loop
 	{
 		const k = "serverConn.serve:"
-		var sel ssa.Instruction
-		for _, in := range h2bAll(serve) {
-			if s, ok := in.(*ssa.Select); ok && s.Blocking {
-				sel = in
-			}
-		}
-		var limit *ssa.If
-		var exceeded *ssa.BasicBlock
 		isLimitCall := func(v ssa.Value) bool {
-			_, ok := h2bIsCall(v, "Server.maxQueuedControlFrames")
+			_, ok := h2bIsCall(e.rep(v), "Server.maxQueuedControlFrames")
 			return ok
 		}
-		for _, ifi := range h2bIfs(serve) {
-			for _, pol := range []bool{true, false} {
-				r := h2bRelOfCond(ifi.Cond, pol)
-				if r.Cmp(token.GTR, isQcfLoad, isLimitCall) || r.Cmp(token.GEQ, isQcfLoad, isLimitCall) {
-					limit = ifi
-					if pol {
-						exceeded = ifi.Block().Succs[0]
-					} else {
-						exceeded = ifi.Block().Succs[1]
-					}
+		// the branch one side of which is "more control frames queued than allowed"
+		// and the other side its negation; the comparison itself may be spelled
+		// either way round, negated, or live in a boolean helper
+		limit, exceeded := e.branchOn(svReg.ifs(),
+			func(r h2bRel) bool {
+				return r.Cmp(token.GTR, isQcfLoad, isLimitCall) || r.Cmp(token.GEQ, isQcfLoad, isLimitCall)
+			},
+			func(r h2bRel) bool {
+				return r.Cmp(token.LEQ, isQcfLoad, isLimitCall) || r.Cmp(token.LSS, isQcfLoad, isLimitCall)
+			})
+		// the select of the serve loop: the blocking select that lies on a cycle with the limit test
+		var sel ssa.Instruction
+		if limit != nil {
+			other := limit.Block().Succs[0]
+			if other == exceeded {
+				other = limit.Block().Succs[1]
+			}
+			for _, in := range svReg.all() {
+				if s, ok := in.(*ssa.Select); ok && s.Blocking && svReg.reachAfter(in, nil, h2bInstrIs(limit)) != nil && svReg.reachFromBlock(other, nil, h2bInstrIs(in)) != nil {
+					sel = in
 				}
 			}
 		}
 		c.Check("serve-limit", k+"limit-test", serve.Pos(), limit != nil && sel != nil,
 			"serve has no branch on sc.queuedControlFrames > (or >=) sc.srv.maxQueuedControlFrames(), or no select loop")
 		if limit != nil && sel != nil {
-			bad := core.ReachAvoiding(serve, sel, h2bInstrIs(limit), h2bInstrIs(sel))
+			bad := svReg.reachAfter(sel, h2bInstrIs(limit), h2bInstrIs(sel))
 			c.Check("serve-limit", k+"every-iteration", h2bPos(limit), bad == nil,
 				"an iteration of the serve loop returns to the select without passing the queued-control-frames limit test")
-			back := h2bReachFromBlock(exceeded, nil, h2bInstrIs(sel))
-			ret := h2bReachFromBlock(exceeded, nil, core.IsReturn)
+			back := svReg.reachFromBlock(exceeded, nil, h2bInstrIs(sel))
+			ret := svReg.reachFromBlock(exceeded, nil, svReg.isExit)
 			c.Check("serve-limit", k+"exceeded-leaves", h2bPos(limit), back == nil && ret != nil,
 				"when the limit is exceeded serve keeps looping instead of returning (the connection is not closed)")
 			closed := false
@@ -329,7 +368,7 @@ func runC37(c *core.Ctx) {
 					continue
 				}
 				f, _ := h2bAnyFieldLoad(d.Call.Value)
-				if f != nil && f.Name() == "conn" && core.Dominates(in, limit) {
+				if f != nil && f.Name() == "conn" && svReg.dominates(in, sel) {
 					closed = true
 				}
 			}
@@ -346,7 +385,7 @@ func runC37(c *core.Ctx) {
 		if k, isK := h2bInt(v); isK {
 			ok = k > 0
 		} else {
-			ok = h2bGuarded(r.Block(), func(rel h2bRel) bool { return rel.Cmp(token.GTR, h2bIs(v), h2bIsInt(0)) })
+			ok = e.guarded(r.Block(), func(rel h2bRel) bool { return rel.Cmp(token.GTR, e.is(v), h2bIsInt(0)) })
 		}
 		c.Check("limit-value", fmt.Sprintf("Server.maxQueuedControlFrames:return#%d", i+1), r.Pos(), ok,
 			"maxQueuedControlFrames may return "+core.Render(v)+", which is not known to be positive: the flood limit is disabled or closes every connection")
